@@ -52,6 +52,18 @@ impl std::convert::TryFrom<FXRatesDataModel> for FXRates {
 
 impl FXRates {
     pub fn try_new(fx_rates: Vec<FXRate>, base: Option<Ccy>) -> Result<Self, PyErr> {
+        #[cfg(rateslib_verif)]
+        if crate::verif::trace::active() {
+            use crate::verif::trace as t;
+            let quotes = t::quotes_json(&fx_rates);
+            let b: Vec<String> = base.iter().map(|c| c.name.to_string()).collect();
+            let r = t::suspended(|| FXRates::try_new(fx_rates.clone(), base));
+            t::fx_history(vec![match &r {
+                Ok(f) => serde_json::json!({"op":"new","quotes":quotes,"base":b,"o":"ok","state":t::fx_state(f)}),
+                Err(_) => serde_json::json!({"op":"new","quotes":quotes,"base":b,"o":"err"}),
+            }]);
+            return r;
+        }
         // Validations:
         // 1. fx_rates is non-zero length
         // 2. currencies are not under or over overspecified
@@ -134,6 +146,15 @@ impl FXRates {
     }
 
     pub fn update(&mut self, fx_rates: Vec<FXRate>) -> Result<(), PyErr> {
+        #[cfg(rateslib_verif)]
+        if crate::verif::trace::active() {
+            use crate::verif::trace as t;
+            let given = serde_json::json!({"op":"given","quotes":t::quotes_json(&self.fx_rates),"base":[self.currencies[0].name.to_string()],"o":"ok","state":t::fx_state(self)});
+            let upd = t::quotes_json(&fx_rates);
+            let r = t::suspended(|| self.update(fx_rates.clone()));
+            t::fx_history(vec![given, serde_json::json!({"op":"update","quotes":upd,"o": if r.is_ok() {"ok"} else {"err"},"state":t::fx_state(self)})]);
+            return r;
+        }
         // validate that the input vector contains FX pairs that are already associated with the instance
         if !(fx_rates
             .iter()
@@ -162,6 +183,15 @@ impl FXRates {
     }
 
     pub fn set_ad_order(&mut self, ad: ADOrder) -> Result<(), PyErr> {
+        #[cfg(rateslib_verif)]
+        if crate::verif::trace::active() {
+            use crate::verif::trace as t;
+            let given = serde_json::json!({"op":"given","quotes":t::quotes_json(&self.fx_rates),"base":[self.currencies[0].name.to_string()],"o":"ok","state":t::fx_state(self)});
+            let o = match ad { ADOrder::Zero => 0, ADOrder::One => 1, ADOrder::Two => 2 };
+            let r = t::suspended(|| self.set_ad_order(ad));
+            t::fx_history(vec![given, serde_json::json!({"op":"set_order","order":o,"o": if r.is_ok() {"ok"} else {"err"},"state":t::fx_state(self)})]);
+            return r;
+        }
         match (ad, &self.fx_array) {
             (ADOrder::Zero, NumberArray2::F64(_))
             | (ADOrder::One, NumberArray2::Dual(_))
